@@ -52,6 +52,7 @@ def run(ctx):
     res = ctx.drive(ct.PKG, "TestC23", env={"VERIF_TRACE_OUT": base}, label="C23/record", timeout=900)
     if res is None:
         return
+    ctx.validated -= int(res.get("validated", 0))  # counted when TLC accepts the events, not when they are recorded
     since = len(ctx.tlc_runs)
     ct.validate(ctx, "TraceApiGate", (res.get("coverage") or {}).get("trace_files") or [], base + ".cases",
                 "TestC23", {}, "C23", _match, parallel=3, timeout=600)
